@@ -473,6 +473,17 @@ S(id="T.find.repr", props=["C12", "C10"], spec="symtab.spec.c", harness="h_find_
   replace=["find_hash_table_entry/lookup_slot_c"], functions=["symb_find_by_repr"], params={"quick": {"CAP": 8}, "thorough": {"CAP": 64}},
   what="the lookup by name asks the name table, without reservation, with a key that carries the given name, and answers with the content of the slot the table returns "
        "(the key lives on the stack of the call: nothing keeps its address); with HT.find / HT.abs.* and T.copy.* this is one half of assumption A7")
+S(id="E.set.add_start", props=["C12"], spec="earley.spec.c", harness="h_add_start", mode="L", canaries=2, enforce=["set_new_add_start_sit/add_start_c"],
+  replace=["_OS_expand_memory/os_expand_two_c"], functions=["set_new_add_start_sit"], params={"quick": {"CAP": 8, "NCAP": 3}, "thorough": {"CAP": 16, "NCAP": 6}}, mem=32, timeout=1500,
+  bound="the set being formed holds <= 2 (thorough 5) pairs before the call; the function has no loop",
+  what="Earley core primitive: the parallel arrays of situations and distances on top of two object stacks both grow by exactly one element holding the pair; what was in them stays "
+       "(ghost byte per array) also when an array moves to a new segment; new_sits / new_dists point at the arrays where they now are; the count goes up by one; all writes stay inside the stacks",
+  assumes=["the segment contract is the one proved by OS.expand, restated with a ghost byte per stack"])
+S(id="E.set.add_initial", props=["C12"], spec="earley.spec.c", harness="h_add_initial", mode="U", loops=True, n_loops=1, canaries=2, enforce=["set_new_add_initial_sit/add_initial_c"],
+  replace=["_OS_expand_memory/os_expand_two_c"], functions=["set_new_add_initial_sit"], params={"quick": {"CAP": 8, "NCAP": 3}, "thorough": {"CAP": 16, "NCAP": 6}}, mem=32, timeout=1500,
+  what="Earley core primitive: a non-start situation is appended to the situation array unless it is already among the non-start situations (search loop closed by its contract); on "
+       "append the array grows by one element holding it, the rest stays (ghost byte), new_sits and the core's sits pointer are refreshed; otherwise nothing changes",
+  assumes=["array size capped by NCAP elements (object size only)", "the segment contract is the one proved by OS.expand, restated with a ghost byte"])
 S(id="T.rule.add", props=["C12", "C10"], spec="symtab.spec.c", harness="h_rule_add", mode="L", canaries=2, enforce=["rule_new_symb_add/rule_add_c"],
   replace=["_OS_expand_memory/os_expand_keep_c"], functions=["rule_new_symb_add"], params={"quick": {"CAP": 8, "RCAP": 3}, "thorough": {"CAP": 8, "RCAP": 3}}, mem=32, timeout=1500, tier="thorough",
   bound="the open array holds <= 3 symbols before the call; the function has no loop (thorough tier only: 5 minutes)",
